@@ -191,6 +191,9 @@ func (b *SttsBox) GetSampleNrAtTime(sampleStartTime uint64) (sampleNr uint32, er
 	nrEntries := len(b.SampleCount)
 	for i := 0; i < nrEntries; i++ {
 		timeDelta := uint64(b.SampleTimeDelta[i])
+		if timeDelta == 0 && b.SampleCount[i] > 0 && sampleStartTime == accTime {
+			return accNr + 1, nil // Samples of zero duration start at this time
+		}
 		if sampleStartTime < accTime+uint64(b.SampleCount[i])*timeDelta {
 			relTime := (sampleStartTime - accTime)
 			nrInInterval := relTime / timeDelta
